@@ -118,6 +118,7 @@ static void writer_phase(rng_t *r, const char *path, int threaded, int big) {
             int extreme = rng_chance(r, 1, 4);
             d.samples_per_data = extreme ? pick_u32(r) : (uint32_t) rng_below(r, 300);
             d.sample_decimate_factor = extreme ? pick_u32(r) : (uint32_t) rng_below(r, 100);
+            if (!extreme && rng_chance(r, 1, 6)) { static const uint32_t mid[] = {2700, 5000, 20000, 70000}; d.sample_decimate_factor = RNG_PICK(r, mid); d.samples_per_data = d.sample_decimate_factor * (uint32_t) rng_range(r, 1, 3); }   /* statistics over > 65536 samples are then served from raw samples */
             d.entries_per_summary = extreme ? pick_u32(r) : (uint32_t) rng_below(r, 200);
             d.summary_decimate_factor = extreme ? pick_u32(r) : (uint32_t) rng_below(r, 50);
             d.annotation_decimate_factor = rng_chance(r, 1, 3) ? pick_u32(r) : (uint32_t) rng_below(r, 20);
@@ -227,6 +228,7 @@ static void reader_phase(rng_t *r, const char *path) {
             case 4: {
                 int have = !jls_rd_fsr_length(rd, id, &len);
                 int64_t start = pick_i64(r, len), incr = pick_i64(r, len > 0 ? len / 4 : 4), cnt = rng_chance(r, 1, 4) ? pick_i64(r, 10) : rng_range(r, 0, 40);
+                if (have && len > 4 && rng_chance(r, 1, 4)) { cnt = rng_range(r, 1, 3); incr = len / cnt - rng_range(r, 0, 3); start = rng_range(r, 0, len - incr * cnt); }   /* the largest windows that fit */
                 int64_t sized = cnt;
                 int absurd = !have || start < 0 || incr <= 0 || cnt <= 0 || cnt > 100000 || incr > len || start > len || cnt > (len - start) / (incr > 0 ? incr : 1);
                 if (absurd || sized < 0) sized = 1;
@@ -316,6 +318,46 @@ static void misc_phase(rng_t *r) {
     ++n_calls;
 }
 
+/* a long signal with a large sample decimation: statistics over windows of more than 65536 samples (the reader's minimum
+ * scratch size) are computed from raw samples because the window is shorter than 25 summary entries */
+static void long_window_phase(rng_t *r, const char *path) {
+    struct jls_wr_s *wr = NULL;
+    if (CALL("jls_wr_open", jls_wr_open(&wr, path))) return;
+    static const uint32_t sdfs[] = {2700, 5000, 10000, 40000, 100000};
+    static const char *tn[] = {"u8", "f32", "i16", "u1"};
+    const dtype_t *t = dtype_by_name(RNG_PICK(r, tn));
+    struct jls_signal_def_s d; memset(&d, 0, sizeof(d));
+    d.signal_id = 1; d.source_id = 0; d.signal_type = JLS_SIGNAL_TYPE_FSR; d.data_type = t->code; d.sample_rate = 1000; d.name = "long"; d.units = "";
+    d.sample_decimate_factor = RNG_PICK(r, sdfs); d.samples_per_data = d.sample_decimate_factor * (uint32_t) rng_range(r, 1, 2);
+    CALL("jls_wr_signal_def", jls_wr_signal_def(wr, &d));
+    int64_t total = rng_range(r, 70000, 400000), pos = 0;
+    while (pos < total) {
+        int64_t n = rng_range(r, 1, total - pos < 150000 ? total - pos : 150000);
+        size_t nbytes = ((size_t) n * (size_t) t->bits + 7) / 8;
+        uint8_t *buf = malloc(nbytes);
+        if (t->kind == 2) { float *f = (float *) buf; for (int64_t i = 0; i < n; ++i) f[i] = (float) ((pos + i) % 1000); }
+        else for (size_t i = 0; i < nbytes; ++i) buf[i] = (uint8_t) (i * 13 + (size_t) pos);
+        CALL("jls_wr_fsr", jls_wr_fsr(wr, 1, pos, buf, (uint32_t) n));
+        free(buf);
+        pos += n;
+    }
+    CALL("jls_wr_close", jls_wr_close(wr));
+    struct jls_rd_s *rd = NULL;
+    if (CALL("jls_rd_open", jls_rd_open(&rd, path))) return;
+    int64_t len = 0; jls_rd_fsr_length(rd, 1, &len);
+    for (int q = 0; q < 12 && len > 0; ++q) {
+        int64_t cnt = rng_range(r, 1, 4);
+        int64_t incr = rng_chance(r, 1, 2) ? len / cnt - rng_range(r, 0, 5) : rng_range(r, 60000, 70000 < len ? 70000 : len);
+        if (incr < 1 || incr * cnt > len) continue;
+        int64_t start = rng_range(r, 0, len - incr * cnt);
+        double *out = malloc((size_t) cnt * 4 * sizeof(double));   /* exactly as documented */
+        v_ctx("long-window statistics start=%lld incr=%lld cnt=%lld len=%lld sdf=%u", (long long) start, (long long) incr, (long long) cnt, (long long) len, d.sample_decimate_factor);
+        CALL("jls_rd_fsr_statistics", jls_rd_fsr_statistics(rd, 1, start, incr, out, cnt));
+        free(out);
+    }
+    CALL("jls_rd_close", (jls_rd_close(rd), 0));
+}
+
 static void run_case(uint64_t idx, void *vctx) {
     ctx_t *c = vctx;
     rng_t r; rng_seed(&r, vmix(g_seed, idx ^ 0xC10));
@@ -325,6 +367,7 @@ static void run_case(uint64_t idx, void *vctx) {
     unlink(good); unlink(bad); unlink(cp);
     int threaded = rng_chance(&r, 1, 4);
     int big = rng_chance(&r, 1, c->thorough ? 6 : 15);
+    if ((idx % 16) == 5) { long_window_phase(&r, cp); unlink(cp); }
     writer_phase(&r, good, threaded, big);
     int phases = (int) rng_range(&r, 1, 4);
     for (int ph = 0; ph < phases; ++ph) {
